@@ -1,6 +1,7 @@
 package main
 
 import (
+	"time"
 	"fmt"
 	"math/rand"
 	"sync"
@@ -70,7 +71,10 @@ func (s *dpState) concRun(cid, ds, writer, mode string, capv int64, nthreads, pe
 			}
 		}(g)
 	}
-	wg.Wait()
+	if !waitTimeout(&wg, 90*time.Second) {
+		pr("CONC %s HANG goroutines executing queries concurrently did not return within 90 s\n", cid)
+		return
+	}
 	if wrong != "" {
 		pr("CONC %s WRONG %d %s\n", cid, panics, wrong)
 	} else {
@@ -125,10 +129,33 @@ func lruDirect(cid string, capv uint64, nthreads, perThread, nkeys int, seed int
 			}
 		}(g)
 	}
-	wg.Wait()
+	if !waitTimeout(&wg, 90*time.Second) {
+		pr("LRUD %s HANG goroutines using the cache concurrently did not return within 90 s\n", cid)
+		return
+	}
 	if bad != "" {
 		pr("LRUD %s WRONG %d %s\n", cid, panics, bad)
 	} else {
 		pr("LRUD %s OK\n", cid)
+	}
+}
+
+// concHangs counts concurrent runs that never finished; after two of them the remaining runs
+// give up at once (each would cost the full watchdog time and the abandoned goroutines pile up).
+var concHangs int
+
+// waitTimeout waits for the group; false if it is not done in time (the goroutines are abandoned).
+func waitTimeout(wg *sync.WaitGroup, d time.Duration) bool {
+	if concHangs >= 2 {
+		d = 2 * time.Second
+	}
+	done := make(chan struct{})
+	go func() { wg.Wait(); close(done) }()
+	select {
+	case <-done:
+		return true
+	case <-time.After(d):
+		concHangs++
+		return false
 	}
 }
